@@ -234,6 +234,9 @@ func manyConditions(rng interface{ Intn(int) int }, n int) *Pipe {
 	always := []*E{Bin(">=", l("id"), Num("0")), Bin(">", r("uid"), Un("-", Num("1"))), Bin("!=", l("id"), Un("-", Num("5"))), Bin("<", r("uid"), Num("1000")),
 		Bin("<=", Un("-", Num("9")), l("id")), Call("not", Bin("==", r("uid"), Un("-", Num("2")))), Bin(">=", Bin("+", l("id"), r("uid")), Num("0")), Call("isnotnull", l("id"))}
 	selective := []*E{Name("k"), Bin("==", l("k"), r("j")), Bin("==", l("id"), r("uid")), Bin("<", l("id"), r("uid")), Bin("==", l("ia"), r("ub"))}
+	// the built-in constants are conditions too: false and null match nothing, true everything
+	selective = append(selective, Name("false"), Name("null"), Bin("==", Num("1"), Num("2")))
+	always = append(always, Name("true"))
 	pos := rng.Intn(n)
 	var conds []*E
 	for i := 0; i < n; i++ {
